@@ -138,6 +138,10 @@ pub fn serve(cases_path: &str, out_path: &str) {
                 do_parse_with(script, &bytes, true)
             }
             Some("load") => crate::loadrun::do_load(&unhex(it.next().unwrap_or("-"))),
+            Some("feed") => {
+                let v: Vec<&str> = it.collect();
+                crate::loadrun::do_feed(&v)
+            }
             _ => "BADCASE".into(),
         };
         writeln!(out, "{}", ans).unwrap();
